@@ -930,6 +930,13 @@ class Engine:
     def do_call(self, st, fr, t):
         args = [self.eval_operand(st, fr, a) for a in t.args]
         callee = t.func if t.func is not None else f"<indirect {t.func_op}>"
+        return self.dispatch(st, fr, t, args, callee)
+
+    def dispatch(self, st, fr, t, args, callee):
+        if callee != t.func:
+            import copy
+            t = copy.copy(t)
+            t.func = callee
         for rx, h in self.models:
             if rx.search(callee):
                 self.stats.modelled[rx.pattern] = self.stats.modelled.get(rx.pattern, 0) + 1
@@ -1092,6 +1099,11 @@ def _describe(v):
     if isinstance(v, VRef):
         return f"&{v.root[0]}{v.root[-1]}{''.join('.' + _keystr(k) if k[0] != 'deref' else '*' for k in v.path)}"
     if isinstance(v, VAgg):
+        if v.extra and isinstance(v.extra, dict):
+            if 'id' in v.extra and v.name == 'Msg':
+                return str(v.extra['id'])
+            if 'of' in v.extra:
+                return f"{v.name}[{v.extra['of']}]"
         return (v.name or 'agg') + (('::' + v.vname) if v.vname else '')
     if isinstance(v, VScalar):
         return str(v.v)
